@@ -1455,4 +1455,331 @@ theorem resolveRule_ne_fuel (vfs : Vfs) : ∀ (r : Rule) (th : Str) (t : Sheet),
 end
 
 
+/-! ## `Replacer` on strings built from simple segments -/
+
+theorem splitFirst_none (c : Nat) : ∀ s : Str, c ∉ s → splitFirst c s = none
+  | [], _ => rfl
+  | x :: xs, h => by
+    have hx : x ≠ c := fun e => h (by simp [e])
+    simp [splitFirst, hx, splitFirst_none c xs (fun hm => h (List.mem_cons_of_mem _ hm))]
+
+theorem quoteSafe_facts (c : Nat) (h : quoteSafe c = true) :
+    c ≠ cColon ∧ c ≠ cQuest ∧ c ≠ cHash ∧ 0x20 < c ∧ c ≠ 9 ∧ c ≠ 13 ∧ c ≠ 10 ∧ c ≠ 0x5B ∧ c ≠ 0x5D ∧ c < 0x80 := by
+  have hlt := quoteSafe_lt c h
+  simp [quoteSafe, isAsciiAlpha, isDigit, cSlash, cPct] at h
+  simp only [cColon, cQuest, cHash]
+  rcases h with ((((((((h|h)|h)|h)|h)|h)|h)|h)|h) <;>
+    first | omega | (have := of_decide_eq_true h; omega)
+
+/-- `urlsplit` of a string of unreserved characters, `/` and `%` that does not start with `//`: it is all path -/
+theorem urlsplit_simple (s : Str) (hs : QuoteSafe s) (h2 : s.take 2 ≠ [cSlash, cSlash]) :
+    urlsplit s [] = .ok { scheme := [], netloc := [], path := s, query := [], fragment := [] } := by
+  have f := fun c hc => quoteSafe_facts c (hs c hc)
+  have hdrop : s.dropWhile (· ≤ 0x20) = s := by
+    cases s with
+    | nil => rfl
+    | cons x xs =>
+      have := (f x (by simp)).2.2.2.1
+      simp [List.dropWhile_cons]; omega
+  have hfilt : s.filter (fun c => c ≠ 9 ∧ c ≠ 13 ∧ c ≠ 10) = s := by
+    apply List.filter_eq_self.mpr
+    intro c hc
+    have := f c hc
+    simp [this.2.2.2.2.1, this.2.2.2.2.2.1, this.2.2.2.2.2.2.1]
+  have hcol : cColon ∉ s := fun hm => (f _ hm).1 rfl
+  have hq : cQuest ∉ s := fun hm => (f _ hm).2.1 rfl
+  have hh : cHash ∉ s := fun hm => (f _ hm).2.2.1 rfl
+  have hnet : netlocOf s = ([], s) := by
+    unfold netlocOf
+    split
+    · exfalso; apply h2; simp [cSlash]
+    · rfl
+  unfold urlsplit
+  simp only [hdrop, hfilt, splitScheme, splitFirst_none _ _ hcol, List.dropWhile_nil, List.reverse_nil,
+    List.filter_nil, hnet, splitFirst_none _ _ hh, splitFirst_none _ _ hq]
+  simp
+
+theorem takeWhile_stop {α : Type} (p : α → Bool) : ∀ (l : List α) (x : α) (r : List α), (∀ y ∈ l, p y = true) → p x = false →
+    (l ++ x :: r).takeWhile p = l ∧ (l ++ x :: r).dropWhile p = x :: r
+  | [], x, r, _, hx => by simp [List.takeWhile_cons, List.dropWhile_cons, hx]
+  | y :: l, x, r, h, hx => by
+    have hy := h y (by simp)
+    have ih := takeWhile_stop p l x r (fun z hz => h z (List.mem_cons_of_mem _ hz)) hx
+    simp [List.takeWhile_cons, List.dropWhile_cons, hy, ih.1, ih.2]
+
+theorem takeWhile_all {α : Type} (p : α → Bool) : ∀ (l : List α), (∀ y ∈ l, p y = true) →
+    l.takeWhile p = l ∧ l.dropWhile p = []
+  | [], _ => by simp
+  | y :: l, h => by
+    have hy := h y (by simp)
+    have ih := takeWhile_all p l (fun z hz => h z (List.mem_cons_of_mem _ hz))
+    simp [List.takeWhile_cons, List.dropWhile_cons, hy, ih.1, ih.2]
+
+/-- `posixpath.split('a/…/f')` -/
+theorem psplit_dir_file (a f : Str) (hf : cSlash ∉ f) (ha : a ≠ []) (hl : a.getLast? ≠ some cSlash) :
+    psplit (a ++ cSlash :: f) = (a, f) := by
+  have hrev : (a ++ cSlash :: f).reverse = f.reverse ++ cSlash :: a.reverse := by simp
+  have hfr : ∀ y ∈ f.reverse, (fun c => decide (c ≠ cSlash)) y = true := by
+    intro y hy; simp only [decide_eq_true_eq]; intro e; subst e; exact hf (List.mem_reverse.mp hy)
+  have st := takeWhile_stop (fun c => decide (c ≠ cSlash)) f.reverse cSlash a.reverse hfr (by simp)
+  -- the last character of `a` is not a slash
+  obtain ⟨a0, x, rfl⟩ : ∃ a0 x, a = a0 ++ [x] := by
+    rcases List.eq_nil_or_concat a with h | ⟨a0, x, h⟩
+    · exact absurd h ha
+    · exact ⟨a0, x, by simpa [List.concat_eq_append] using h⟩
+  have hx : x ≠ cSlash := by simpa using hl
+  unfold psplit
+  simp only [hrev, st.1, st.2, List.reverse_reverse]
+  have hne : (cSlash :: (a0 ++ [x]).reverse).reverse ≠ [] := by simp
+  have hns : (cSlash :: (a0 ++ [x]).reverse).reverse ≠
+      List.replicate (cSlash :: (a0 ++ [x]).reverse).reverse.length cSlash := by
+    intro e
+    have : x ∈ (cSlash :: (a0 ++ [x]).reverse).reverse := by simp
+    rw [e] at this
+    exact hx (List.eq_of_mem_replicate this)
+  simp only [hne, hns, ne_eq, not_false_eq_true, and_self, ↓reduceIte]
+  simp [rstrip, List.dropWhile_cons, hx]
+
+theorem psplit_file (f : Str) (hf : cSlash ∉ f) : psplit f = ([], f) := by
+  have hfr : ∀ y ∈ f.reverse, (fun c => decide (c ≠ cSlash)) y = true := by
+    intro y hy; simp only [decide_eq_true_eq]; intro e; subst e; exact hf (List.mem_reverse.mp hy)
+  have st := takeWhile_all (fun c => decide (c ≠ cSlash)) f.reverse hfr
+  unfold psplit
+  simp only [st.1, st.2]
+  simp
+
+/-- a path segment made of characters that neither `urlsplit` nor `quote` treat specially -/
+def SimpleSeg (s : Str) : Prop := s ≠ [] ∧ ∀ c ∈ s, quoteSafe c = true ∧ c ≠ cSlash
+
+theorem joinWith_snoc (c : Nat) : ∀ (l : List Str) (f : Str), l ≠ [] → joinWith c (l ++ [f]) = joinWith c l ++ c :: f
+  | [], _, h => absurd rfl h
+  | [a], f, _ => by simp [joinWith]
+  | a :: b :: l, f, _ => by
+    have ih := joinWith_snoc c (b :: l) f (by simp)
+    simp only [List.cons_append] at ih ⊢
+    simp only [joinWith, ih, List.append_assoc, List.cons_append]
+
+theorem joinWith_append (c : Nat) : ∀ (l1 l2 : List Str), l1 ≠ [] → l2 ≠ [] →
+    joinWith c (l1 ++ l2) = joinWith c l1 ++ c :: joinWith c l2
+  | [], _, h, _ => absurd rfl h
+  | [a], l2, _, h2 => by
+    cases l2 with
+    | nil => exact absurd rfl h2
+    | cons b l => simp [joinWith]
+  | a :: b :: l, l2, _, h2 => by
+    have ih := joinWith_append c (b :: l) l2 (by simp) h2
+    simp only [List.cons_append] at ih ⊢
+    simp only [joinWith, ih, List.append_assoc, List.cons_append]
+
+theorem mem_joinWith (c : Nat) : ∀ (l : List Str) (x : Nat), x ∈ joinWith c l → x = c ∨ ∃ s ∈ l, x ∈ s
+  | [], x, h => by simp [joinWith] at h
+  | [a], x, h => by simp [joinWith] at h; exact Or.inr ⟨a, by simp, h⟩
+  | a :: b :: l, x, h => by
+    simp only [joinWith, List.mem_append, List.mem_cons] at h
+    rcases h with h | h | h
+    · exact Or.inr ⟨a, by simp, h⟩
+    · exact Or.inl h
+    · rcases mem_joinWith c (b :: l) x h with h | ⟨s, hs, hx⟩
+      · exact Or.inl h
+      · exact Or.inr ⟨s, List.mem_cons_of_mem _ hs, hx⟩
+
+/-- facts about a non-empty join of simple segments -/
+theorem joinWith_simple : ∀ (l : List Str), l ≠ [] → (∀ s ∈ l, SimpleSeg s) →
+    joinWith cSlash l ≠ [] ∧ (joinWith cSlash l).getLast? ≠ some cSlash ∧ (joinWith cSlash l).head? ≠ some cSlash
+  | [], h, _ => absurd rfl h
+  | [a], _, hs => by
+    have ha := hs a (by simp)
+    obtain ⟨a0, x, rfl⟩ : ∃ a0 x, a = a0 ++ [x] := by
+      rcases List.eq_nil_or_concat a with h | ⟨a0, x, h⟩
+      · exact absurd h ha.1
+      · exact ⟨a0, x, by simpa [List.concat_eq_append] using h⟩
+    refine ⟨by simp [joinWith], ?_, ?_⟩
+    · simp [joinWith]; exact (ha.2 x (by simp)).2
+    · simp only [joinWith]
+      cases a0 with
+      | nil => simp; exact (ha.2 x (by simp)).2
+      | cons y ys => simp; exact (ha.2 y (by simp)).2
+  | a :: b :: l, _, hs => by
+    have ha := hs a (by simp)
+    have ih := joinWith_simple (b :: l) (by simp) (fun s h => hs s (List.mem_cons_of_mem _ h))
+    refine ⟨by simp [joinWith], ?_, ?_⟩
+    · simp only [joinWith]
+      rw [List.getLast?_append]
+      have : (cSlash :: joinWith cSlash (b :: l)).getLast? = (joinWith cSlash (b :: l)).getLast? := by
+        cases hj : joinWith cSlash (b :: l) with
+        | nil => exact absurd hj ih.1
+        | cons y ys => simp [List.getLast?_cons_cons]
+      rw [this]
+      cases hj : (joinWith cSlash (b :: l)).getLast? with
+      | none => simp [List.getLast?_eq_none_iff] at hj; exact absurd hj ih.1
+      | some z => simp; intro e; exact ih.2.1 (by rw [hj, e])
+    · simp only [joinWith]
+      cases a with
+      | nil => exact absurd rfl ha.1
+      | cons y ys => simp; exact (ha.2 y (by simp)).2
+
+theorem startsWith_slash_false (b : Str) (h : b.head? ≠ some cSlash) : startsWith [cSlash] b = false := by
+  cases b with
+  | nil => simp [startsWith, List.isPrefixOf]
+  | cons x xs =>
+    have : x ≠ cSlash := by simpa using h
+    simp [startsWith, List.isPrefixOf, this, Ne.symm this]
+
+theorem simple_noSlash (s : Str) (h : SimpleSeg s) : cSlash ∉ s := fun hm => (h.2 _ hm).2 rfl
+
+theorem psplit_segments (U : List Str) (f : Str) (hU : ∀ s ∈ U, SimpleSeg s) (hf : SimpleSeg f) :
+    psplit (joinWith cSlash (U ++ [f])) = (joinWith cSlash U, f) := by
+  cases U with
+  | nil => simp [joinWith, psplit_file f (simple_noSlash f hf)]
+  | cons a l =>
+    have hne : a :: l ≠ [] := by simp
+    have js := joinWith_simple (a :: l) hne hU
+    rw [joinWith_snoc cSlash (a :: l) f hne]
+    exact psplit_dir_file _ f (simple_noSlash f hf) js.1 js.2.1
+
+theorem pjoin_segments (D U : List Str) (f : Str) (hD : ∀ s ∈ D, SimpleSeg s) (hU : ∀ s ∈ U, SimpleSeg s)
+    (hf : SimpleSeg f) :
+    pjoin (joinWith cSlash D) [joinWith cSlash U, f] = joinWith cSlash (D ++ U ++ [f]) := by
+  have hf0 : startsWith [cSlash] f = false := by
+    apply startsWith_slash_false
+    cases f with
+    | nil => exact absurd rfl hf.1
+    | cons x xs => simp; exact (hf.2 x (by simp)).2
+  cases D with
+  | nil =>
+    cases U with
+    | nil => simp [pjoin, pjoin1, joinWith, hf0, startsWith, List.isPrefixOf]
+    | cons a l =>
+      have js := joinWith_simple (a :: l) (by simp) hU
+      have h1 : startsWith [cSlash] (joinWith cSlash (a :: l)) = false := startsWith_slash_false _ js.2.2
+      simp only [pjoin, List.foldl_cons, List.foldl_nil, pjoin1, joinWith, h1, hf0, List.nil_append]
+      simp only [Bool.false_eq_true, ↓reduceIte, true_or, js.1, js.2.1, false_or]
+      rw [joinWith_snoc cSlash (a :: l) f (by simp)]
+  | cons d ds =>
+    have jd := joinWith_simple (d :: ds) (by simp) hD
+    cases U with
+    | nil =>
+      have h1 : startsWith [cSlash] (joinWith cSlash ([] : List Str)) = false := by
+        simp [joinWith, startsWith, List.isPrefixOf]
+      simp only [pjoin, List.foldl_cons, List.foldl_nil, pjoin1, h1, hf0, List.append_nil]
+      simp only [Bool.false_eq_true, ↓reduceIte, jd.1, jd.2.1, false_or, joinWith]
+      have hl : (joinWith cSlash (d :: ds) ++ [cSlash]).getLast? = some cSlash := by simp
+      simp only [hl, or_true, ↓reduceIte]
+      rw [joinWith_snoc cSlash (d :: ds) f (by simp)]
+      simp
+    | cons a l =>
+      have js := joinWith_simple (a :: l) (by simp) hU
+      have h1 : startsWith [cSlash] (joinWith cSlash (a :: l)) = false := startsWith_slash_false _ js.2.2
+      simp only [pjoin, List.foldl_cons, List.foldl_nil, pjoin1, h1, hf0]
+      simp only [Bool.false_eq_true, ↓reduceIte, jd.1, jd.2.1, false_or]
+      have hne : joinWith cSlash (d :: ds) ++ cSlash :: joinWith cSlash (a :: l) ≠ [] := by simp
+      have hl : (joinWith cSlash (d :: ds) ++ cSlash :: joinWith cSlash (a :: l)).getLast? ≠ some cSlash := by
+        rw [List.getLast?_append]
+        cases hj : joinWith cSlash (a :: l) with
+        | nil => exact absurd hj js.1
+        | cons y ys =>
+          have := js.2.1
+          rw [hj] at this
+          simp only [List.getLast?_cons_cons]
+          cases hy : (y :: ys).getLast? with
+          | none => simp at hy
+          | some z => simp; intro e; exact this (by rw [hy, e])
+      simp only [hne, hl, false_or, ↓reduceIte]
+      rw [joinWith_snoc cSlash (d :: ds ++ a :: l) f (by simp), joinWith_append cSlash (d :: ds) (a :: l) (by simp) (by simp)]
+
+/-- `normpath` only keeps segments that were there -/
+theorem normComps_subset (a : Bool) (cs : List Str) : ∀ c ∈ normComps a cs, c ∈ cs := by
+  have key : ∀ (cs : List Str) (st : List Str) (all : List Str), (∀ c ∈ st, c ∈ all) → (∀ c ∈ cs, c ∈ all) →
+      ∀ c ∈ cs.foldl (normStep a) st, c ∈ all := by
+    intro cs
+    induction cs with
+    | nil => intro st all hst _; simpa using hst
+    | cons x xs ih =>
+      intro st all hst hcs
+      simp only [List.foldl_cons]
+      apply ih _ all _ (fun c hc => hcs c (List.mem_cons_of_mem _ hc))
+      intro c hc
+      unfold normStep at hc
+      split at hc
+      · exact hst c hc
+      · split at hc
+        · rcases List.mem_cons.mp hc with rfl | hc
+          · exact hcs _ (by simp)
+          · exact hst c hc
+        · exact hst c (List.mem_of_mem_tail hc)
+  intro c hc
+  rw [normComps, List.mem_reverse] at hc
+  exact key cs [] cs (by simp) (fun c h => h) c hc
+
+theorem quoteSafe_join (l : List Str) (h : ∀ s ∈ l, ∀ c ∈ s, quoteSafe c = true) : QuoteSafe (joinWith cSlash l) := by
+  intro x hx
+  rcases mem_joinWith cSlash l x hx with rfl | ⟨s, hs, hxs⟩
+  · decide
+  · exact h s hs x hxs
+
+theorem simple_join_quoteSafe (l : List Str) (h : ∀ s ∈ l, SimpleSeg s) : QuoteSafe (joinWith cSlash l) :=
+  quoteSafe_join l (fun s hs c hc => ((h s hs).2 c hc).1)
+
+theorem take2_of_head (s : Str) (h : s.head? ≠ some cSlash) : s.take 2 ≠ [cSlash, cSlash] := by
+  cases s with
+  | nil => simp
+  | cons x xs =>
+    have : x ≠ cSlash := by simpa using h
+    cases xs <;> simp [this]
+
+/-- **`Replacer` on paths given by their segments**: for an @import href `D/g` and a URL `U/f` made of simple
+segments (unreserved characters and `%`; `.` and `..` allowed in `D` and `U`), `Replacer(href)(url)` is the
+`/`-join of `normComps (D ++ U ++ [f])` — the string function is the segment function -/
+theorem replacer_on_segments (D U : List Str) (g f : Str) (hD : ∀ s ∈ D, SimpleSeg s) (hU : ∀ s ∈ U, SimpleSeg s)
+    (hg : SimpleSeg g) (hf : SimpleSeg f) (hfn : Normal f) :
+    replacer (joinWith cSlash (D ++ [g])) (joinWith cSlash (U ++ [f]))
+      = .ok (joinWith cSlash (normComps false (D ++ U ++ [f]))) := by
+  have hDg : ∀ s ∈ D ++ [g], SimpleSeg s := by
+    intro s hs
+    rcases List.mem_append.mp hs with h | h
+    · exact hD s h
+    · simp at h; subst h; exact hg
+  have hUf : ∀ s ∈ U ++ [f], SimpleSeg s := by
+    intro s hs
+    rcases List.mem_append.mp hs with h | h
+    · exact hU s h
+    · simp at h; subst h; exact hf
+  have hall : ∀ s ∈ D ++ U ++ [f], SimpleSeg s := by
+    intro s hs
+    rcases List.mem_append.mp hs with h | h
+    · rcases List.mem_append.mp h with h | h
+      · exact hD s h
+      · exact hU s h
+    · simp at h; subst h; exact hf
+  -- the href
+  have jh := joinWith_simple (D ++ [g]) (by simp) hDg
+  have sh := urlsplit_simple _ (simple_join_quoteSafe _ hDg) (take2_of_head _ jh.2.2)
+  -- the url
+  have ju := joinWith_simple (U ++ [f]) (by simp) hUf
+  have su := urlsplit_simple _ (simple_join_quoteSafe _ hUf) (take2_of_head _ ju.2.2)
+  have hrel : startsWith [cSlash] (joinWith cSlash (U ++ [f])) = false := startsWith_slash_false _ ju.2.2
+  -- the combined path
+  have hnorm := normpath_joinWith (D ++ U) f
+    (fun s hs => simple_noSlash s (hall s (by simpa [List.append_assoc] using hs)))
+    (by
+      have : ∀ s ∈ D ++ U ++ [f], s ≠ [] := fun s hs => (hall s hs).1
+      cases hdu : D ++ U ++ [f] with
+      | nil => simp at hdu
+      | cons x xs =>
+        have hx := this x (by rw [hdu]; simp)
+        simpa using hx)
+    hfn
+  have hq : quote (joinWith cSlash (normComps false (D ++ U ++ [f])))
+      = .ok (joinWith cSlash (normComps false (D ++ U ++ [f]))) := by
+    apply quote_safe
+    apply quoteSafe_join
+    intro s hs c hc
+    exact ((hall s (normComps_subset false _ s hs)).2 c hc).1
+  unfold replacer extractBase
+  simp only [sh, psplit_segments D g hD hg]
+  unfold replacerCall
+  simp only [su, hrel, psplit_segments U f hU hf, pjoin_segments D U f hD hU hf, hnorm, hq]
+  simp [urlunsplit]
+
+
 end CssVerif.Urls
